@@ -45,7 +45,8 @@ void harness_aggverify(void) {
     verif_ctx_init(&ctx); glue_init();
     for (i = 0; i < NSIG; i++) { __CPROVER_assume(st_val(&in.pk[i].data[0]) < verif_P() && st_val(&in.pk[i].data[32]) < verif_P());
         if (st_val(&in.pk[i].data[0]) == 0) badpk = 1; if (be_val(&in.agg[32 * i], 32) >= verif_P()) badr = 1; }
-    r = secp256k1_schnorrsig_aggverify(&ctx, in.pk, in.msgs, NSIG, in.agg, 32 * (NSIG + 1));
+    { EXACT(xagg, in.agg, 32 * (NSIG + 1)); EXACT(xmsgs, in.msgs, 32 * NSIG);
+    r = secp256k1_schnorrsig_aggverify(&ctx, in.pk, xmsgs, NSIG, xagg, 32 * (NSIG + 1)); }
     __CPROVER_assert(r == 0 || r == 1, "boolean");
     if (s >= verif_N()) __CPROVER_assert(r == 0, "aggregate s >= n rejected");
     if (badr) __CPROVER_assert(r == 0, "r_i >= p rejected");
